@@ -40,6 +40,17 @@ CHECKS["C01"] = dict(
    note=TB + "float computation of m_offset/ax_pos_num_offset replaced by exact integers; 32-bit overflow not modelled; Blocks/Generic geometries share the formulas but are not yet exercised by the harness.",
    design="DESIGN.md §4 C01")
 
+CHECKS["C18"] = dict(
+   technique="Lean 4 invariant proofs over interleaving semantics of the synchronisation protocols (any threads, any schedule); trace validation + schedule-perturbed differential runs of the OpenMP build",
+   text="Proof (protocol level only): the double-checked lazy initialisation used for the geometry tables never lets a thread use an incomplete table, builds it at most once and cannot deadlock; "
+        "the lock-protected matrix cache returns the specified row for every request and never stores a wrong entry; the per-thread accumulation + reduction equals the sum over all work items for "
+        "every assignment of items to threads — each for every number of threads and every schedule (induction over schedules with an inductive invariant). "
+        "Tie/exploration: the OpenMP build of /repo is run with UCL_STIR_VERIF schedule points that record events and inject seeded yields/sleeps; every recorded trace must be accepted by the "
+        "model's trace validators (exactly one build per table, `crit 0, built, crit 1*`, no set flag seen before the build, cache hits after inserts, every work item exactly once), and "
+        "multi-threaded results are compared with single-threaded results of the same binary. What libgomp and the hardware do is not a theorem: this is the weakest claim in the set.",
+   note=TB + "OpenMP atomic/critical/locks assumed sequentially consistent; races outside the modelled protocols are visible only to the perturbed runs; list-mode gradient and scatter not exercised.",
+   design="DESIGN.md §4 C18")
+
 NOT_YET = {}
 
 def main():
@@ -61,11 +72,11 @@ def main():
           for p in props if p not in CHECKS]
     man = dict(
         version=1,
-        setup_cmd="python3 tools/build_stir.py plain && (cd lean && lake build StirVerif stirdriver)",
+        setup_cmd="python3 tools/build_stir.py plain && python3 tools/build_stir.py omp && (cd lean && lake build StirVerif stirdriver)",
         hooks=dict(guard="UCL_STIR_VERIF",
                    enable="tools/build_stir.py configures /repo out-of-tree into build/stir-plain with -DUCL_STIR_VERIF (CMAKE_CXX_FLAGS); harnesses are compiled with the same define",
                    baseline_off_cmd="cmake --build /repo/_build -j 14 && ctest --test-dir /repo/_build -j8 --timeout 900",
-                   source_commits=[], add_only=True),
+                   source_commits=["5d9f086d3"], add_only=True),
         engines=[dict(name="lean-model", path="lean/", serves_properties=sorted(CHECKS), kind_free_text="Lean 4 models, proofs and line-protocol driver (lake; no Mathlib require)"),
                  dict(name="correspondence-harness", path="harness/", serves_properties=sorted(CHECKS), kind_free_text="C++ drivers of the real STIR API + property oracles, linked against a build of /repo's working tree")],
         checks=checks,
